@@ -70,8 +70,9 @@ func stapleOCSP(ctx context.Context, ocspConfig OCSPConfig, storage Storage, cer
 	if err == nil {
 		resp, err := ocsp.ParseResponse(cachedOCSP, nil)
 		if err == nil {
-			if freshOCSP(resp) {
-				// staple is still fresh; use it
+			if freshOCSP(resp) && checkOCSPResponse(resp, cert.Leaf) == nil {
+				// staple is still fresh (and is a current response
+				// for this certificate); use it
 				ocspBytes = cachedOCSP
 				ocspResp = resp
 			}
@@ -106,6 +107,13 @@ func stapleOCSP(ctx context.Context, ocspConfig OCSPConfig, storage Storage, cer
 			return fmt.Errorf("no OCSP stapling for %v: %w", cert.Names, ocspErr)
 		}
 		gotNewOCSP = true
+	}
+
+	// The responder's signature is verified when the response is parsed, but
+	// that does not tell us that the response is about this certificate or
+	// that it is within its validity period, so make sure of that ourselves.
+	if err := checkOCSPResponse(ocspResp, cert.Leaf); err != nil {
+		return fmt.Errorf("invalid: OCSP response for %v: %w", cert.Names, err)
 	}
 
 	if ocspResp.NextUpdate.After(expiresAt(cert.Leaf)) {
@@ -236,6 +244,27 @@ func getOCSPForCert(ocspConfig OCSPConfig, bundle []byte) ([]byte, *ocsp.Respons
 	}
 
 	return ocspResBytes, ocspRes, nil
+}
+
+// checkOCSPResponse returns an error if resp is not a response for the
+// certificate leaf (its serial number differs), if it is not yet valid
+// (ThisUpdate is in the future), or if it has already expired (NextUpdate
+// has passed). A response without NextUpdate does not expire: according to
+// RFC 6960 section 4.2.2.1 newer revocation information is then available
+// all the time.
+func checkOCSPResponse(resp *ocsp.Response, leaf *x509.Certificate) error {
+	if leaf != nil && (resp.SerialNumber == nil || leaf.SerialNumber == nil ||
+		resp.SerialNumber.Cmp(leaf.SerialNumber) != 0) {
+		return fmt.Errorf("response is for a different certificate (serial number %v)", resp.SerialNumber)
+	}
+	now := time.Now()
+	if resp.ThisUpdate.After(now) {
+		return fmt.Errorf("response is not yet valid (this update: %s)", resp.ThisUpdate)
+	}
+	if !resp.NextUpdate.IsZero() && !now.Before(resp.NextUpdate) {
+		return fmt.Errorf("response has expired (next update: %s)", resp.NextUpdate)
+	}
+	return nil
 }
 
 // freshOCSP returns true if resp is still fresh,
